@@ -68,6 +68,24 @@ def skew(vc):
     vc.ensure("O-C04-skew.antisym", _mat_eq(vc, S.T, -S))
 
 
+@obligation("C04", "dotrot", ensures=["O-C04-dotrot.identity", "O-C04-dotrot.frame-consistency"], fns=[MA + "dotRot1", MA + "dotRot2", MA + "dotRot3"], mode="R",
+            note="the documented time derivative of each elementary rotation, for every angle, angular velocity and vector: dotRot_k(a, w) v = rot_k(a) (w x v), hence "
+                 "rot_k(a)^T dotRot_k(a, w) is the cross-product matrix of w (w is the angular velocity in the SOURCE frame)")
+def dotrot(vc):
+    a = _sc(vc, "a")
+    w = vc.vec("w", 3, -1e2, 1e2)
+    v = vc.vec("v", 3, -1e3, 1e3)
+    cr = np.array([w[1] * v[2] - w[2] * v[1], w[2] * v[0] - w[0] * v[2], w[0] * v[1] - w[1] * v[0]])
+    ok1, ok2 = [], []
+    for i in (1, 2, 3):
+        R = vc.fn(MA + f"rot{i}")(a)
+        D = vc.fn(MA + f"dotRot{i}")(a, w)
+        ok1.append(vc.eq(np.dot(D, v), np.dot(R, cr), 1e-6))
+        ok2.append(vc.eq(np.dot(np.dot(R.T, D), v), cr, 1e-6))
+    vc.ensure("O-C04-dotrot.identity", vc.And(*ok1))
+    vc.ensure("O-C04-dotrot.frame-consistency", vc.And(*ok2))
+
+
 @obligation("C04", "polar", ensures=["O-C04-polar.orthogonal"], fns=[RD + "PolarMotion.__init__"], mode="R")
 def polar(vc):
     xp = vc.angle("xp", -1e-5, 1e-5)
@@ -170,7 +188,7 @@ def sez_inverse(vc):
     vc.ensure("O-C04-inv-sez.eci2sez-sez2eci", vc.eq(back, x, 1e-8))
 
 
-@obligation("C04", "build", ensures=["O-C04-build.transposes", "O-C04-build.orthogonal", "O-C04-build.composition", "O-C04-build.date"],
+@obligation("C04", "build", ensures=["O-C04-build.transposes", "O-C04-build.orthogonal", "O-C04-build.composition", "O-C04-build.date", "O-C04-build.dut1"],
             fns=[RD + "ReductionParams.build"], mode="R",
             note="real body of build with PolarMotion / PrecessionNutation / getRotR replaced by their contracts (orthogonal results)")
 def build(vc):
@@ -190,6 +208,16 @@ def build(vc):
         moved = bool(np.abs(after_d.rot_pnr - r.rot_pnr).max() > 1e-7)  # the Earth turned 3.6e-6 .. 7e-5 rad in between
         vc.ensure("O-C04-build.composition", same and moved)
         vc.ensure("O-C04-build.date", r.date_time == d)
+        # UT1-UTC is the tabulated value of the day, and inside one UTC day - the two days that END with an inserted leap second included - the frame turns at the Earth rate
+        from resonaate.physics.transforms.eops import getEarthOrientationParameters
+        day = [datetime.datetime(2016, 12, 31), datetime.datetime(2015, 6, 30), datetime.datetime(d.year, d.month, d.day)][vc.int("which_day", 0, 2)]
+        t1 = day + datetime.timedelta(seconds=vc.int("t1_s", 0, 60000))
+        gap = vc.int("gap_s", 600, 6 * 3600)
+        a, b = rd.ReductionParams.build(t1), rd.ReductionParams.build(t1 + datetime.timedelta(seconds=gap))
+        Mrel = a.rot_pnr.T @ b.rot_pnr
+        turned = float(np.arctan2(Mrel[1, 0] - Mrel[0, 1], Mrel[0, 0] + Mrel[1, 1]))
+        rate = 7.292115146706979e-5
+        vc.ensure("O-C04-build.dut1", bool(r.dut1 == getEarthOrientationParameters(d.date()).delta_ut1 and a.dut1 == b.dut1 and abs(abs(turned) - rate * gap) < 5e-9 * gap + 2e-7))
         return
     PN, R, W = orth.LMat.gen("PN"), orth.LMat.gen("R"), orth.LMat.gen("Wp")
     vc.stub(RD + "@PolarMotion", lambda xp, yp: _NS(rot_w=W))
@@ -205,6 +233,7 @@ def build(vc):
                                                vc.eq(r.rot_wt @ r.rot_w, Id), vc.eq(r.rot_w @ r.rot_wt, Id)))
     vc.ensure("O-C04-build.composition", vc.And(vc.eq(r.rot_pnr, PN @ R), vc.eq(r.rot_pn, PN), vc.eq(r.rot_w, W)))
     vc.ensure("O-C04-build.date", r.date_time is d)
+    vc.ensure("O-C04-build.dut1", r.dut1 is eops.delta_ut1)
     # a second request, a fraction of the same second later, is answered from ITS instant (no memo keyed by the truncated second)
     R2 = orth.LMat.gen("R_later")
     d2 = datetime.datetime(2020, 1, 1, 0, 0, 0, 250000)
